@@ -1523,6 +1523,11 @@ int main(int argCount, const char* argv[])
         DISPLAYLEVEL(3, "Note: src files are not removed when output is stdout \n");
         removeSrcFile = 0;
     }
+    /* nor when the output is discarded : nothing would reproduce them */
+    if (outFileName && !strcmp(outFileName, nulmark) && removeSrcFile) {
+        DISPLAYLEVEL(3, "Note: src files are not removed when output is %s \n", nulmark);
+        removeSrcFile = 0;
+    }
     FIO_setRemoveSrcFile(prefs, removeSrcFile);
 
     /* IO Stream/File */
